@@ -265,4 +265,6 @@ def cases(tier):
 
 
 def harnesses(tier):
-    return [("add", h_add, cases(tier), dict(max_paths=400))]
+    cs = cases(tier)
+    return [("add", h_add, cs, dict(max_paths=400)),
+            ("add.raw", h_add, cs[::41], dict(max_paths=400, raw=True))]
